@@ -666,6 +666,18 @@ package http2
 //@ ensures idxok: len(b0) > 0 && c >= 128 && spec.intFits(b0, 7) && 1 <= spec.intVal(b0, 7) && spec.intVal(b0, 7) < 62 + len(old(hp.dynamic)) ==>
 //@ |   r1 == nil && len(r0) == len(b0) - spec.intLen(b0, 7)
 //@ ensures trunc: len(b0) > 0 && c >= 128 && spec.intTrunc(b0, 7) ==> r1 == ErrUnexpectedSize
+//@ # a literal field whose name is there (as an index or as a string) but whose value has not arrived yet is reported as cut
+//@ # short - ErrUnexpectedSize, which is what lets the caller wait for the CONTINUATION frame - not as malformed
+//@ ghost cutn1 = false
+//@ ghost cutn3 = false
+//@ ghost cuti2 = false
+//@ ghost cuti3 = false
+//@ ghost@ret:readString#1 cutn1 = ret2 == nil && len(ret0) == 0
+//@ ghost@ret:readString#3 cutn3 = ret2 == nil && len(ret0) == 0
+//@ ghost@ret:readInt#2 cuti2 = ret2 == nil && len(ret0) == 0
+//@ ghost@ret:readInt#3 cuti3 = ret2 == nil && len(ret0) == 0
+//@ ensures cutname: cutn1 || cutn3 ==> r1 == ErrUnexpectedSize
+//@ ensures cutindex: cuti2 || cuti3 ==> r1 == ErrUnexpectedSize || (iserror(r1) && errcode(r1) == FlowControlError)
 //@ # never-indexed literals are marked, everything else is not (RFC 7541 section 6.2.3)
 //@ # (stated for literals without indexing; the incremental-indexing path goes through addDynamic, whose
 //@ # frame over pooled header fields is too coarse to carry hf across)
